@@ -461,6 +461,12 @@ class Sym:
     def copy(self):
         return self
 
+    def __copy__(self):
+        return self
+
+    def __deepcopy__(self, memo):
+        return self
+
 
 def is_sym(x):
     return isinstance(x, Sym)
@@ -999,7 +1005,7 @@ def _as_real(x):
     if math.isinf(f):
         raise Unsupported("infinite constant in symbolic real arithmetic")
     fr = Fraction(f)
-    q = (z3.IntVal(fr.numerator), fr.denominator) if fr.denominator <= (1 << 20) else None
+    q = (z3.IntVal(fr.numerator), fr.denominator) if fr.denominator <= (1 << 80) else None
     return SReal(_rv(fr), False, q)
 
 
@@ -1021,7 +1027,7 @@ def _real_op(a, b, op):
             (n1, d1), (n2, d2) = a.q, b.q
             if not isinstance(d1, z3.ExprRef) and not isinstance(d2, z3.ExprRef):
                 d = d1 * d2 // math.gcd(d1, d2)
-                if d <= (1 << 40):
+                if d <= (1 << 200):
                     n = n1 * (d // d1) + n2 * (d // d2) if op == "add" else n1 * (d // d1) - n2 * (d // d2)
                     q = (n, d)
             elif d1 is d2 or (isinstance(d1, z3.ExprRef) and isinstance(d2, z3.ExprRef) and d1.eq(d2)):
@@ -1030,7 +1036,7 @@ def _real_op(a, b, op):
         t = a.t * b.t
         if a.q is not None and b.q is not None:
             (n1, d1), (n2, d2) = a.q, b.q
-            if not isinstance(d1, z3.ExprRef) and not isinstance(d2, z3.ExprRef) and d1 * d2 <= (1 << 40):
+            if not isinstance(d1, z3.ExprRef) and not isinstance(d2, z3.ExprRef) and d1 * d2 <= (1 << 200):
                 if z3.is_int_value(n1) or z3.is_int_value(n2):
                     q = (n1 * n2, d1 * d2)
     else:
@@ -1050,7 +1056,7 @@ def _real_op(a, b, op):
                         q = (-(n1 * d2), -nv)
                     else:
                         q = (n1 * d2, nv)
-                    if q[1] > (1 << 40):
+                    if q[1] > (1 << 200):
                         q = None
                 elif d1 == 1 and d2 == 1:
                     q = (n1, n2)
